@@ -514,9 +514,17 @@ impl StoreEnv {
                     let n = self.ids.lock().unwrap().msgs.get(&t).map(|v| v.len()).unwrap_or(0);
                     ["alice", "bob", "carol", "dave"][n % 4].to_string()
                 };
-                let r = self
-                    .store()
-                    .append_message(&tid, actor, origin, content_for(&tag, pad));
+                // `words`: that many distinct words, each once (every keyword count ties with every other)
+                let mut content = content_for(&tag, pad);
+                if let Some(n) = get_u64(op, "words") {
+                    const VOCAB: [&str; 26] = ["alpha", "bravo", "charlie", "delta", "echo", "foxtrot", "golf", "hotel", "india", "juliet", "kilo", "lima", "mike",
+                                               "november", "oscar", "papa", "quebec", "romeo", "sierra", "tango", "uniform", "victor", "whiskey", "xray", "yankee", "zulu"];
+                    for w in VOCAB.iter().cycle().skip(pad % 26).take(n as usize) {
+                        content.push(' ');
+                        content.push_str(w);
+                    }
+                }
+                let r = self.store().append_message(&tid, actor, origin, content);
                 if let Ok(id) = &r {
                     self.ids
                         .lock()
